@@ -1,17 +1,47 @@
 (** C37 correspondence: the routing-table model against recorded runs of
     kbucket.RouteTable (Update / Remove / NearestPeers, observed through rt.Buckets, the
     PeerAdded / PeerRemoved callbacks and the returned values) and of common.CommonPrefixLen /
-    PeerId.Distance / PeerId.Closer.  Histories name peers by their index in a per-case pool of
-    distinct ids, so that case terms stay small. *)
+    PeerId.Distance / PeerId.Closer.
+
+    Case terms are kept small because checking the case file is dominated by the number of bits
+    of its numerals.  The peers of a history form a pool; a pool entry is not the 160-bit id but a
+    short description of its XOR offset from the local id (prefix length and a 16-bit seed expanded
+    by a fixed multiplicative mix); the harness derives the ids it feeds the implementation with
+    the same rule (drivers/c37: poolIDs).  Calls and results name peers by pool index. *)
 From Coq Require Import List Bool NArith ZArith.
 Import ListNotations.
 From Ont Require Export Lib.Bytes Lib.CorrLib Gen.KBucketGen Model.KBucket.
 Open Scope bool_scope.
+Local Open Scope N_scope.
 
-(** Compact case terms (the case file is dominated by parsing time): a peer id is written as
-    the number its [KB_ID_LEN] bytes denote, most significant byte first; an entry of a bucket or of
-    a query result is written as [16 * pool index + address number] (addresses are 1..9). *)
+(** an id written as the number its [KB_ID_LEN] bytes denote, most significant byte first *)
 Definition id_of (n : N) : bytes := rev (le_encode KB_ID_LEN n).
+
+Definition id_bits : N := 8 * N.of_nat KB_ID_LEN.
+Definition mix_mult : N := 1311185441393030098788534042950262523632243239815.
+Definition mix (s : N) : N := ((s + 1) * mix_mult) mod 2 ^ id_bits.
+
+(** Pool entry [e = 65536 * k + s]: the XOR offset of the id from the local id.
+      k < id_bits        : common prefix of exactly k bits, the lower bits from [mix s]
+      k = id_bits        : offset 0 (the local id itself)
+      id_bits < k < 200  : [mix s] (an unrelated id)
+      k >= 200           : the offset of entry k - 200 with bit s flipped (a neighbour of it) *)
+Definition offset_of (earlier : list N) (e : N) : N :=
+  let k := e / 65536 in
+  let s := e mod 65536 in
+  if k <? id_bits then 2 ^ (id_bits - 1 - k) + mix s mod 2 ^ (id_bits - 1 - k)
+  else if k =? id_bits then 0
+  else if k <? 200 then mix s
+  else N.lxor (nth (N.to_nat (k - 200)) earlier 0) (2 ^ s).
+
+Fixpoint offsets (acc : list N) (es : list N) : list N :=
+  match es with
+  | [] => acc
+  | e :: r => offsets (acc ++ [offset_of acc e]) r
+  end.
+
+Definition pool_ids (local : N) (pool : list N) : list bytes :=
+  map (fun d => id_of (N.lxor local d)) (offsets [] pool).
 
 (** operations over pool indices *)
 Inductive iop :=
@@ -19,7 +49,7 @@ Inductive iop :=
 | IRemove (i : N)
 | INearest (i : N) (count : Z).
 
-(** recorded results *)
+(** recorded results; a peer is [16 * pool index + address number] (addresses are 1..9) *)
 Inductive ires :=
 | IRUpdate (r : ures)
 | IRRemove (removed : bool)
@@ -33,17 +63,17 @@ Fixpoint list_match {A B : Type} (f : A -> B -> bool) (a : list A) (b : list B) 
   | _, _ => false
   end.
 
-Definition pool_id (pool : list N) (i : N) : bytes := id_of (nth (N.to_nat i) pool 0%N).
+Definition pool_id (ids : list bytes) (i : N) : bytes := nth (N.to_nat i) ids [].
 
-Definition to_op (pool : list N) (o : iop) : op :=
+Definition to_op (ids : list bytes) (o : iop) : op :=
   match o with
-  | IUpdate i a => OUpdate (pool_id pool i) a
-  | IRemove i => ORemove (pool_id pool i)
-  | INearest i c => ONearest (pool_id pool i) c
+  | IUpdate i a => OUpdate (pool_id ids i) a
+  | IRemove i => ORemove (pool_id ids i)
+  | INearest i c => ONearest (pool_id ids i) c
   end.
 
-Definition peer_matches (pool : list N) (p : peer) (q : N) : bool :=
-  bytes_eqb (fst p) (pool_id pool (q / 16)%N) && N.eqb (snd p) (q mod 16)%N.
+Definition peer_matches (ids : list bytes) (p : peer) (q : N) : bool :=
+  bytes_eqb (fst p) (pool_id ids (q / 16)) && N.eqb (snd p) (q mod 16).
 
 Definition ures_eqb (a b : ures) : bool :=
   match a, b with
@@ -51,37 +81,59 @@ Definition ures_eqb (a b : ures) : bool :=
   | _, _ => false
   end.
 
-Definition res_matches (pool : list N) (m : opres) (r : ires) : bool :=
+Definition res_matches (ids : list bytes) (m : opres) (r : ires) : bool :=
   match m, r with
   | RUpdate a, IRUpdate b => ures_eqb a b
   | RRemove a, IRRemove b => eqb a b
-  | RNearest (NOk out), IRNearest out' => list_match (peer_matches pool) out out'
+  | RNearest (NOk out), IRNearest out' => list_match (peer_matches ids) out out'
   | RNearest NPanic, IRPanic => true
   | _, _ => false
+  end.
+
+(** final rt.Buckets, sparse: the number of buckets and the non-empty ones as (index, entries) *)
+Fixpoint sparse_lookup (i : N) (sp : list (N * list N)) : list N :=
+  match sp with
+  | [] => []
+  | (j, b) :: r => if N.eqb i j then b else sparse_lookup i r
+  end.
+
+Fixpoint buckets_match (ids : list bytes) (i : N) (bs : list bucket) (sp : list (N * list N)) : bool :=
+  match bs with
+  | [] => true
+  | b :: r => list_match (peer_matches ids) b (sparse_lookup i sp) && buckets_match ids (i + 1) r sp
   end.
 
 Inductive case :=
 (* a history on NewRoutingTable(size, local): per-call results and the final rt.Buckets *)
 | CHist (size : Z) (local : N) (pool : list N) (ops : list iop)
-        (res : list ires) (final : list (list N))
-(* the same history prefix run in a child process: did every call return? *)
+        (res : list ires) (nbuckets : N) (final : list (N * list N))
+(* a history run in a child process of its own: did every call return? *)
 | CReturns (size : Z) (local : N) (pool : list N) (ops : list iop) (returned : bool)
-(* common.CommonPrefixLen a b, a.Distance(b), target.Closer(a, b) with target = first argument *)
-| CId (t a b : N) (cpl_ta : N) (dist_ta : N) (closer : bool).
+(* ids t, a = pool entry ea from t, b = pool entry eb from t:
+   common.CommonPrefixLen(t, a), t.Distance(a), t.Closer(a, b) *)
+| CId (t ea eb : N) (cpl_ta : N) (dist_ta : N) (closer : bool).
 
 Definition case_ok (c : case) : bool :=
   match c with
-  | CHist size local pool ops res final =>
-      let '(t, rs) := run (new_table size (id_of local)) (map (to_op pool) ops) in
-      list_match (res_matches pool) rs res &&
-      list_match (list_match (peer_matches pool)) (t_buckets t) final
+  | CHist size local pool ops res nb final =>
+      let ids := pool_ids local pool in
+      let '(t, rs) := run (new_table size (id_of local)) (map (to_op ids) ops) in
+      list_match (res_matches ids) rs res &&
+      N.eqb (N.of_nat (length (t_buckets t))) nb &&
+      forallb (fun e => fst e <? nb) final &&
+      buckets_match ids 0 (t_buckets t) final
   | CReturns size local pool ops returned =>
-      let '(t, rs) := run (new_table size (id_of local)) (map (to_op pool) ops) in
+      let ids := pool_ids local pool in
+      let '(t, rs) := run (new_table size (id_of local)) (map (to_op ids) ops) in
       eqb (negb (existsb diverged rs)) returned
-  | CId t a b n d closer =>
-      N.eqb (N.of_nat (cpl (id_of t) (id_of a))) n &&
-      bytes_eqb (distance (id_of t) (id_of a)) (id_of d) &&
-      eqb (dist_less (id_of t) (id_of a, 0%N) (id_of b, 0%N)) closer
+  | CId t ea eb n d closer =>
+      match pool_ids t [ea; eb] with
+      | [a; b] =>
+          N.eqb (N.of_nat (cpl (id_of t) a)) n &&
+          bytes_eqb (distance (id_of t) a) (id_of d) &&
+          eqb (dist_less (id_of t) (a, 0) (b, 0)) closer
+      | _ => false
+      end
   end.
 
 Definition mismatches := mism case_ok.
